@@ -48,7 +48,8 @@ const rule = "case = rapid-drawn (in half of the cases a pre-history of the prim
 	"nack_sender (raw replica that reads its stream and keeps calling NegativeAcknowledge with its session id every 0.2-5 ms from 1-3 goroutines for " +
 	"sequence 1 / its last sequence / a future sequence, or follows the protocol but drops every 2nd-7th message and NACKs the gap; with or without " +
 	"acknowledgements; clause 2 observed only), reconnect_storm (1-4 goroutines opening and cancelling StreamWAL in a tight loop while the " +
-	"heartbeat monitor runs every 1-5 ms), none); executed in a child process over loopback TCP; " +
+	"heartbeat monitor runs every 1-5 ms), flapping_acker (raw replica living short lives: 4-8 goroutines acknowledging back to back, connection " +
+	"closed abruptly after 1-20 ms with acknowledgements in flight, repeated until the end of the workload), none); executed in a child process over loopback TCP; " +
 	"oracle = (1) every Put/Get/Commit on the primary returns within 10 s without error, (2) GetNodeInfo no longer lists the faulty replica " +
 	"10 x heartbeat timeout after the workload (classes stalled_reader, tcp_stall, tcp_reset, no_ack, tcp_stall_quiet), (3) every healthy replica equals the primary " +
 	"(gets + full scan) within 60 s + 3 s per 100 steps and still 2 s later. " +
@@ -193,6 +194,13 @@ func record(c *Case, r *Result) {
 			ev.R().Count("faulty_session_dropped:"+c.Fault.Class, 1)
 		} else if r.Verdict == "ok" {
 			ev.R().Count("faulty_session_still_listed(not judged):"+c.Fault.Class, 1)
+		}
+	}
+	if c.Fault.Class == "flapping_acker" && r.FaultyStats != nil {
+		for _, k := range []string{"lives", "acks"} {
+			if v, ok := r.FaultyStats[k].(float64); ok {
+				ev.R().Count("flapping_acker_"+k, int(v))
+			}
 		}
 	}
 	if c.Fault.Class == "reconnect_storm" && r.FaultyStats != nil {
